@@ -101,7 +101,10 @@ def _spec_for(name):
     from .mdutil import urlish
 
     if name.split("-nl")[0].split("-eof")[0] in URLSLOT or name in URLSLOT:
-        return {"a": dict(NOCR, extra=urlish("a")), "b": dict(NOCR, extra=urlish("b"))}
+        # autolink bodies: newline excluded - CrossHair's `$` does not model "before a final newline" (AUTOLINK_RE), the
+        # native re-run disagrees on exactly that value (see DESIGN.md 10.4)
+        ex = "\r\0\n" if name.startswith("autolink") else "\r\0"
+        return {"a": dict(exclude=ex, extra=urlish("a")), "b": dict(exclude=ex, extra=urlish("b"))}
     return {"a": dict(NOCR), "b": dict(NOCR)}
 
 
